@@ -54,7 +54,7 @@ def run(prop, tier, replay=None):
                 cases.append(dict(fam="timeout", shape=dict(n=len(v), digits=True, unit="H", signed=False), proto="grpc", value=v))
             reps = 1 if tier == "quick" else 12
             for s in scheds:
-                for k in range(reps):
+                for k in range(reps * (3 if s.get("gzip") else 1)):     # (gzip: the place of the break is drawn per case)
                     c = dict(s)
                     c["fam"] = "cancel"
                     cases.append(c)
@@ -114,11 +114,12 @@ def run(prop, tier, replay=None):
             again = collections.Counter((f[0], f[2]) for f in rr[0]["failed"])
             for case, formula, ev in retry:
                 if again[(case, formula)] >= 2:
-                    key = (formula, ev["shape"], ev["point"], ev["client"])
+                    key = (formula, ev["shape"], ev["point"], ev["client"], bool(ev.get("gzip")))
                     viol[key] = dict(property=prop, formula=formula, seed=seed, cases=[by_id[case]], observed=ev, more=0,
                                      signature=dict(module="Deadline", formula=formula, shape=ev["shape"], point=ev["point"], client=ev["client"]),
-                                     what="%s: %s handler %s, client %s -> ctx done %s, released %s (error %s) within 5 s; reproduced twice" % (
-                                         formula, ev["shape"], ev["point"], ev["client"], ev["ctxdone"], ev["released"], ev["relerr"]))
+                                     what="%s: %s handler %s, client %s%s -> ctx done %s, released %s (error %s, io.EOF %s) within 5 s; reproduced twice" % (
+                                         formula, ev["shape"], ev["point"], ev["client"], " (gzip upload breaks off)" if ev.get("gzip") else "",
+                                         ev["ctxdone"], ev["released"], ev["relerr"], ev.get("releof")))
                 else:
                     unreproduced += 1
         for fid, n in sorted(known.items()):
